@@ -199,6 +199,28 @@ theorem C18_forest_call (cfg : Cfg) (ops : List FOp) (i : Nat) (ch : Child) (r :
   rw [e]
   exact (C18_call cfg (ch.view t.p) r (intr ic) hs).1
 
+/-- **once the offending method is removed every variant works normally**: a variant all of whose definitions can be
+    built answers from the complete merged method set, whatever failed before -/
+theorem C18_forest_recovers (cfg : Cfg) (ops : List FOp) (i : Nat) (ch : Child) (r : Route)
+    (hi : (runF cfg {} ops).cs[i]? = some ch) (hg : AllGood cfg (ch.eff (runF cfg {} ops).p)) :
+    let t := runF cfg {} ops
+    (stepF cfg t (.callC i r false)).2 = .served (ch.eff t.p) (ch.eff t.p) := by
+  intro t
+  have h : t.safe = true := C18_forest cfg ops
+  obtain ⟨_, hcs⟩ := (F.safe_iff t).1 h
+  have hmem : ch ∈ t.cs := List.mem_of_getElem? hi
+  have hv : ch.view t.p = ch.c := view_eq_of_defns (hcs ch hmem).2
+  have hs : Safe (ch.view t.p) := hv ▸ (hcs ch hmem).1
+  have e : (stepF cfg t (.callC i r false)).2 = (call cfg (ch.view t.p) r (intr false)).2 := by
+    show (match t.cs[i]? with
+      | none => (t, Out.error)
+      | some ch =>
+        match call cfg (ch.view t.p) r (intr false) with
+        | (c', o) => (({ t with cs := t.cs.set i { ch with c := c' } } : F), o)).2 = _
+    rw [hi]
+  rw [e]
+  exact C18_recovers cfg (ch.view t.p) r hs hg
+
 /-- the defect that was repaired (finding D47): two linked variants, both in service; the function gets a method
     (`9`) the FIRST variant cannot be built with; with the former loop the second variant is never rebuilt and goes on
     answering from the previous definitions (`[1]` instead of `[1, 9]`) -/
